@@ -40,7 +40,11 @@ pub fn make_input_class(id: String, src: &Source, rng: &mut Rng, c2d_false: bool
         }
     }
     let c2d = c2d_false || rng.chance(1, 3);
-    let (format, lines, extra) = if c2d {
+    // a separate class: c2d files with n-ary or nodes (multiway decisions), small n only
+    let multiway = !c2d_false && src.n >= 2 && src.n <= 6 && models.is_some() && rng.chance(1, 6);
+    let (format, lines, extra) = if multiway {
+        ("c2d", emit_c2d_multiway(models.as_ref().unwrap(), src.n, rng), "c2d multiway (n-ary or)".to_string())
+    } else if c2d {
         let co = C2dOpts { keep_true: rng.chance(1, 4), keep_false: c2d_false };
         let e = format!("c2d keep_true={} keep_false={}", co.keep_true as u8, co.keep_false as u8);
         ("c2d", emit_c2d(&dag, src.n, &co), e)
@@ -131,8 +135,68 @@ pub fn write_models(out: &mut String, inp: &Input) {
 
 pub const KINDS: &[&str] = &["c01"];
 
+/// feature ids far above 65536 (a small formula renamed onto wide ids, many free features):
+/// the count is (models of the small formula) * 2^(free features); no truth table at that size
+fn wide_id_cases(ctx: &Ctx, rng: &mut Rng, out: &mut dyn Write) {
+    use num::BigUint;
+    use std::fmt::Write as _;
+    let cases = if ctx.tier == "thorough" { 12 } else { 3 };
+    for k in 0..cases {
+        let nv = 2 + rng.below(3) as u32; // variables of the small formula
+        let mut small = Vec::new();
+        let mut ms = Vec::new();
+        for _ in 0..50 {
+            let m = 1 + rng.below(nv as u64) as usize;
+            small = random_cnf(rng, nv, m, 3);
+            ms = models(&small, nv);
+            // every variable must occur so that the wide ids are really mentioned
+            let all = (1..=nv as i32).all(|v| small.iter().any(|c| c.iter().any(|l| l.abs() == v)));
+            if !ms.is_empty() && all {
+                break;
+            }
+            ms.clear();
+        }
+        if ms.is_empty() {
+            continue;
+        }
+        // ids: some small, some wide, with collisions modulo 65536 between a small and a wide id
+        let base = 1 + rng.below(20) as u32;
+        let ids: Vec<u32> = (0..nv)
+            .map(|i| if i % 2 == 0 { base + i } else { 65536 + base + (i - 1) + if rng.coin() { 0 } else { 4464 } })
+            .collect();
+        let total = ids.iter().copied().max().unwrap() + 1 + rng.below(5) as u32;
+        let cnf = rename_cnf(&small, &|v| ids[(v - 1) as usize]);
+        let mut order: Vec<u32> = ids.clone();
+        rng.shuffle(&mut order);
+        let opts = Opts { decomp: rng.coin(), share: true, keep_false: false, neg_first: rng.coin(), interleave: true, order };
+        let dag = match compile(&cnf, &opts) {
+            Some(d) => d,
+            None => continue,
+        };
+        let lines = emit_d4(&dag, &opts, rng);
+        let count = BigUint::from(ms.len()) << ((total - nv) as usize);
+        let mut s = String::new();
+        writeln!(s, "case c01-wide-{} C01", k).unwrap();
+        writeln!(s, "info wide feature ids {:?} total={} | {}", ids, total, opts.describe()).unwrap();
+        writeln!(s, "n {}", total).unwrap();
+        writeln!(s, "src_count {}", count).unwrap();
+        s.push_str(&file_block("d4", &lines));
+        match load(&lines, Some(total)) {
+            Err(e) => writeln!(s, "impl panic {}", e).unwrap(),
+            Ok(d) => {
+                writeln!(s, "bigcircuit {}", d.nodes.len()).unwrap();
+                writeln!(s, "impl nvars {}", d.number_of_variables).unwrap();
+                writeln!(s, "impl rc {}", d.rc()).unwrap();
+            }
+        }
+        writeln!(s, "end").unwrap();
+        out.write_all(s.as_bytes()).unwrap();
+    }
+}
+
 pub fn run(_kind: &str, ctx: &Ctx, out: &mut dyn Write) {
     let mut rng = Rng::new(ctx.seed);
+    wide_id_cases(ctx, &mut rng, out);
     let srcs = sources(ctx, &mut rng);
     let mut k = 0;
     for src in srcs.iter() {
